@@ -372,6 +372,7 @@ type c15World struct {
 	retainCh      chan struct{}
 	retainText    string // retained-ids notifications observed during the current op
 	pendingRetain []uint64
+	opSrcs        map[int][]int // the source runners each operator was last deployed with
 	pubSeen       map[uint64]bool
 }
 
@@ -669,6 +670,7 @@ func (w *c15World) release(victim int) {
 			err := w.op(c.id).HandleDeploy(context.Background(), req, c15Sink{})
 			if err == nil {
 				w.deployed[c.id] = true
+				w.noteSrcs(c.id, req.SourceRunnerIds)
 			}
 			c.resp <- err
 		} else {
@@ -676,6 +678,13 @@ func (w *c15World) release(victim int) {
 		}
 	}
 	w.batch = nil
+}
+
+func (w *c15World) noteSrcs(op int, ids []string) {
+	if w.opSrcs == nil {
+		w.opSrcs = map[int][]int{}
+	}
+	w.opSrcs[op] = c15Nums(ids)
 }
 
 func (w *c15World) staleReport() string {
@@ -787,6 +796,8 @@ func c15ErrClass(err error) string {
 		return "mismatch"
 	case strings.Contains(m, "not ready"):
 		return "notready"
+	case strings.Contains(m, "is not a source runner of this deployment"):
+		return "refused"
 	}
 	if len(m) > 60 {
 		m = m[:60]
@@ -1177,7 +1188,16 @@ func (w *c15World) tick() string {
 }
 
 // parkedSender: would alignSender park this sender (its barrier is in, or the record does not expect it)?
-func (w *c15World) parkedSender(o *operator.Operator, s int) bool {
+func (w *c15World) parkedSender(o *operator.Operator, i, s int) bool {
+	member := false
+	for _, x := range w.opSrcs[i] {
+		if x == s {
+			member = true
+		}
+	}
+	if !member {
+		return false // HandleEvent refuses a sender that is not a runner of the deployment before it could park
+	}
 	if _, waiting, ok := o.VerifCheckpointRecordC15(); ok && len(waiting) > 0 {
 		for _, x := range waiting {
 			if x == c15ID(s) {
@@ -1225,7 +1245,7 @@ func (w *c15World) handleEvent(o *operator.Operator, s int, ev *workerpb.Event) 
 
 func (w *c15World) barrier(i, s int, id uint64) string {
 	o := w.op(i)
-	if w.deployed[i] && w.parkedSender(o, s) {
+	if w.deployed[i] && w.parkedSender(o, i, s) {
 		return "blocked" // the sender would park in alignSender until the record completes or is abandoned
 	}
 	w.opAcked = false
@@ -1252,7 +1272,7 @@ func (w *c15World) barrier(i, s int, id uint64) string {
 
 func (w *c15World) event(i, s, tag int) string {
 	o := w.op(i)
-	if w.deployed[i] && w.parkedSender(o, s) {
+	if w.deployed[i] && w.parkedSender(o, i, s) {
 		return "blocked"
 	}
 	w.takeHandled(i)
@@ -2053,10 +2073,10 @@ func c15Fixed() []lib.Case {
 			"reg o 0", "reg o 1", "reg s 2", "reg s 3", "deployok", "holdpub", "tick", "ack s 2 5", "ack s 3 5", "bar 0 2 5", "bar 0 3 5",
 			"bar 1 2 5", "bar 1 3 5", "tick", "ack s 2 6", "dereg o 1", "reg o 4", "relpub", "deployok", "st"}},
 		// D45 (open finding): an event queued at surviving operator 0 in the first deployment is handed to the handler in
-		// the second one, on the restored state
+		// the second one, on the restored state; what the replaced runner 3 still sends afterwards is refused (D69)
 		{Header: c15Header(2, 5, 0), Tags: []string{"D45"}, Ops: []string{
 			"reg o 0", "reg o 1", "reg s 2", "reg s 3", "deployok", "ev 0 2 7", "flush 1", "st", "dereg s 3", "reg s 4", "deployok",
-			"ev 0 2 8", "ev 0 4 9", "ev 1 4 10", "flush 1", "flush 0", "st"}},
+			"ev 0 3 11", "bar 0 3 1", "ev 0 2 8", "ev 0 4 9", "ev 1 4 10", "flush 1", "flush 0", "st"}},
 		// the "spontaneous" start failures seen by the C01 cluster: worker (0,2) halts silently; the surviving worker
 		// (1,3) stops itself because its peer is unreachable and deregisters; a new worker (4,5) registers while the
 		// heartbeats of 0 and 2 have not expired: the job assembles {0,4}/{2,5}, the deployment fails, and is retried at
@@ -2481,6 +2501,7 @@ func (cl *c15Cluster) deploy(c *c15DeployCall) error {
 		err := wk.w.Operator.HandleDeploy(context.Background(), req, c15Sink{})
 		if err == nil {
 			cl.w.deployed[c.id] = true
+			cl.w.noteSrcs(c.id, req.SourceRunnerIds)
 		}
 		return err
 	}
